@@ -134,10 +134,15 @@ def StrToInt(input_string):
     :return BV:                     bitvector of the integer resulting from the string or -1 in
                                     bitvector if the string cannot be transformed into an integer
     """
-    try:
-        return BVV(int(input_string.value), 64)
-    except ValueError:
+    # SMT-LIB str.to_int: only a non-empty string of the ASCII digits 0-9 denotes a number, everything else
+    # (signs, whitespace, underscores, non-ASCII digits, the empty string) is -1. int() accepts more than that.
+    s = input_string.value
+    if not s or any(c not in "0123456789" for c in s):
         return BVV(-1, 64)
+    value = 0
+    for c in s:
+        value = (value * 10 + ord(c) - 48) & 0xFFFFFFFFFFFFFFFF
+    return BVV(value, 64)
 
 
 def StrIsDigit(input_string):
